@@ -196,7 +196,9 @@ theorem deleteIndex_rep {a : Arena V} (hsize : a.nodes.size ≤ EMPTY) {k : Ctx 
     {k'' : Ctx (Ent V)} {t'' : T (Ent V)} {freed : Nat}
     (hm : deleteFocus k (.node c l s e r) = some (k'', t'', freed)) :
     ∃ a', a.deleteIndex s = some a' ∧ Rep a' a'.root EMPTY (plug k'' t'') ∧
-      poolOf a' = (poolOf a).free freed ∧ a'.nodes.size = a.nodes.size ∧ a'.dflt = a.dflt := by
+      poolOf a' = (poolOf a).free freed ∧ a'.nodes.size = a.nodes.size ∧ a'.dflt = a.dflt ∧
+      (∀ x, (x ∉ (T.node c l s e r).slots ++ ctxSlots k ∨ x = freed) → x ≠ 0 → a'.node x = a.node x) ∧
+      (ZeroOK a → ZeroOK a') := by
   have hr0 := hr
   obtain ⟨_, n, hn, hnp, hnr, hne, hl, hrr⟩ := hr0
   rw [deleteIndex_eq]
@@ -215,10 +217,15 @@ theorem deleteIndex_rep {a : Arena V} (hsize : a.nodes.size ≤ EMPTY) {k : Ctx 
     obtain ⟨KK', repl⟩ := x
     simp only [hu, Option.map_some, Option.some.injEq, Prod.mk.injEq] at hm
     obtain ⟨rfl, rfl, rfl⟩ := hm
-    obtain ⟨a', h1, h2, h3, h4, h5⟩ := unlink_rep hsize hc hr hnd h0 h0s hu
-    refine ⟨a', ?_, h2, h3, h4, h5⟩
-    rw [hl.idx, hrr.idx, hnp, hnr]
-    exact h1
+    obtain ⟨a', h1, h2, h3, h4, h5, h6, h7⟩ := unlink_rep hsize hc hr hnd h0 h0s hu
+    refine ⟨a', ?_, h2, h3, h4, h5, ?_, h7⟩
+    · rw [hl.idx, hrr.idx, hnp, hnr]
+      exact h1
+    · intro x hx hx0
+      refine h6 x ?_ hx0
+      rcases hx with hx | rfl
+      · slots_tac hx
+      · slots_tac hnd
   · -- two children
     have hlne : l ≠ .leaf := fun h => htwo (Or.inl h)
     have hrne : r ≠ .leaf := fun h => htwo (Or.inr h)
@@ -283,12 +290,38 @@ theorem deleteIndex_rep {a : Arena V} (hsize : a.nodes.size ≤ EMPTY) {k : Ctx 
     have hu' : unlinkM ((leftmost [] (T.node cr lr sr er rr)).1 ++
         (⟨c, s, es, .node cl ll sl el rl, .R⟩ : Frame (Ent V)) :: k) cs .leaf rs = some (KK', repl) := by
       simpa using hu
-    obtain ⟨a', h1, h2, h3, h4, h5⟩ := unlink_rep (a := a1) (by simpa [a1] using hsize) hcs1 hrs1
+    obtain ⟨a', h1, h2, h3, h4, h5, h6, h7⟩ := unlink_rep (a := a1) (by simpa [a1] using hsize) hcs1 hrs1
       (by simpa using hnd2) (by simpa [a1] using h0) (by simpa using h0s2) hu'
-    refine ⟨a', ?_, hplug ▸ h2, by rw [h3]; simp [poolOf, a1], by rw [h4]; simp [a1], by rw [h5]; simp [a1]⟩
-    have : sn.right = rs.rootIdx := hsr.idx
-    rw [hsle, this, hsnp, hsnr]
-    exact h1
+    have hs0 : s ≠ 0 := by slots_tac h0s
+    refine ⟨a', ?_, hplug ▸ h2, by rw [h3]; simp [poolOf, a1], by rw [h4]; simp [a1], by rw [h5]; simp [a1], ?_, ?_⟩
+    · have : sn.right = rs.rootIdx := hsr.idx
+      rw [hsle, this, hsnp, hsnr]
+      exact h1
+    · intro x hx hx0
+      have hxs : x ≠ s := by
+        rcases hx with hx | rfl
+        · slots_tac hx
+        · simp only [ctxSlots_append, ctxSlots, List.nodup_append, T.slots_node] at hnd2; slots_tac hnd2
+      rw [h6 x ?_ hx0]
+      · simp [a1, Ne.symm hxs]
+      · rcases hx with hx | rfl
+        · intro hm'
+          apply hx
+          have := hperm.mem_iff.mp (show x ∈ (T.node cs .leaf ss es rs).slots ++ ctxSlots
+            ((leftmost [] (T.node cr lr sr er rr)).1 ++ (⟨c, s, es, .node cl ll sl el rl, .R⟩ : Frame (Ent V)) :: k) by
+              simp only [T.slots_leaf, List.nil_append, List.mem_append] at hm'
+              simp only [T.slots_node, T.slots_leaf, List.nil_append, List.mem_append, List.mem_cons]
+              rcases hm' with h | h
+              · exact Or.inl (Or.inr h)
+              · exact Or.inr h)
+          exact this
+        · simp only [T.slots_leaf, List.nil_append]
+          simp only [T.slots_node, T.slots_leaf, List.nil_append, List.cons_append, List.nodup_cons] at hnd2
+          exact hnd2.1
+    · intro hz
+      refine h7 ?_
+      intro n hn0
+      exact hz n (by simpa [a1, hs0] using hn0)
 
 end ITree
 
@@ -349,7 +382,7 @@ theorem deleteAt_rep {a : Arena V} {st st' : St V} (h : RepSt a st) (hs : SlotsO
   obtain ⟨k'', t'', freed⟩ := x
   simp only [hdf, Option.map_some, Option.some.injEq] at hm
   subst hm
-  obtain ⟨a', h1, h2, h3, h4, h5⟩ := deleteIndex_rep hsize hc hr (hperm.nodup_iff.mp hnd) h0
+  obtain ⟨a', h1, h2, h3, h4, h5, _⟩ := deleteIndex_rep hsize hc hr (hperm.nodup_iff.mp hnd) h0
     (fun hx => h0s (hperm.mem_iff.mpr hx)) hdf
   exact ⟨a', h1, ⟨h2, by rw [h3, h.pool]⟩, h4, h5⟩
 
